@@ -100,6 +100,88 @@ impl FdGen {
     }
 }
 
+/// SCENARIOS: small program families around mechanisms that random conjunctions reach too rarely (each found by a
+/// seeded change that the random sample missed).  Returns (nvars, nq, body).
+pub fn scenario(r: &mut Rng) -> (usize, usize, Vec<PG>) {
+    let v = |k: usize| T::Var(k);
+    let n = |k: isize| T::Num(k);
+    match r.below(3) {
+        0 => {
+            // ALIASED OPERANDS (C04-k): a constraint posted on a, b; then a == x, b == y move the domains to x, y (either
+            // orientation); then x / y are narrowed to one value by PROPAGATION — the constraint on the old names must wake up
+            let (lo, hi) = (1, 2 + r.below(3) as isize);
+            let mut body = vec![PG::InFd(T::list(vec![v(0), v(1), v(2), v(3)]), D::I(lo, hi))];
+            let c = match r.below(5) {
+                0 => PG::LteFd(v(0), v(1)),
+                1 => PG::DiseqFd(v(0), v(1)),
+                2 => PG::LtFd(v(0), v(1)),
+                3 => PG::PlusFd(v(0), n(1), v(1)),
+                _ => PG::LteFd(v(1), v(0)),
+            };
+            let early = r.chance(2, 3);
+            if early {
+                body.push(c.clone());
+            }
+            body.push(if r.chance(2, 3) { PG::Eq(v(0), v(2)) } else { PG::Eq(v(2), v(0)) });
+            body.push(if r.chance(2, 3) { PG::Eq(v(1), v(3)) } else { PG::Eq(v(3), v(1)) });
+            // half of the time the bound leaves exactly one value
+            let k = r.range(lo as i64, hi as i64) as isize;
+            body.push(match r.below(3) {
+                0 => PG::LteFd(n(if r.chance(1, 2) { hi } else { k }), v(2)),
+                1 => PG::LteFd(v(2), n(if r.chance(1, 2) { lo } else { k })),
+                _ => PG::DiseqFd(v(2), n(k)),
+            });
+            let k2 = r.range(lo as i64, hi as i64) as isize;
+            let k3 = if r.chance(1, 2) { lo } else { r.range(lo as i64, hi as i64) as isize };
+            body.push(match r.below(3) {
+                0 => PG::Conde(vec![vec![PG::Eq(v(3), n(k2))], vec![PG::LteFd(v(3), n(k3))]]),
+                1 => PG::LteFd(v(3), n(k3)),
+                _ => PG::Conde(vec![vec![PG::LteFd(n(k2), v(3))], vec![PG::Eq(v(3), n(k3))]]),
+            });
+            if !early {
+                body.push(c);
+            }
+            (4, 2, body)
+        }
+        1 => {
+            // DISTINCT CASCADE (C16-k): excluding a constant collapses an earlier variable of the distinctfd list to one value,
+            // whose binding makes another stored constraint narrow a LATER variable of the same list
+            let a = r.range(0, 2) as isize;
+            let c = a + 1 + r.below(3) as isize;
+            let mut body = vec![PG::InFd(v(0), D::V(vec![a, c])), PG::InFd(v(1), D::I(r.range(-1, 1) as isize, c + r.below(2) as isize))];
+            body.push(match r.below(4) {
+                0 => PG::LteFd(v(1), v(0)),
+                1 => PG::LteFd(v(0), v(1)),
+                2 => PG::DiseqFd(v(0), v(1)),
+                _ => PG::PlusFd(v(0), n(1), v(1)),
+            });
+            let gone = if r.chance(2, 3) { c } else { a };
+            let mut items = vec![v(0), v(1), n(gone)];
+            if r.chance(1, 2) {
+                items.swap(1, 2);
+            }
+            if r.chance(1, 4) {
+                items.swap(0, 1);
+            }
+            body.push(PG::DistinctFd(T::list(items)));
+            (2, 2, body)
+        }
+        _ => {
+            // HIDDEN PRODUCT (C17-k): two FD variables that are not part of the query, tied by a product over mixed signs —
+            // labelling the hidden variables must be able to go back on the first one
+            let k = [4, -4, 6, -6, 2, -2, 3, -3, 1][r.below(9)];
+            let mut body = vec![PG::InFd(v(0), D::I(0, 1 + r.below(2) as isize))];
+            body.push(PG::InFd(v(1), D::I(-3, 1 + r.below(3) as isize)));
+            body.push(PG::InFd(v(2), D::I(-3 + r.below(2) as isize, 2)));
+            body.push(PG::TimesFd(v(1), v(2), n(k)));
+            if r.chance(1, 3) {
+                body.push(PG::LteFd(v(0), v(1)));
+            }
+            (3, 1, body)
+        }
+    }
+}
+
 fn val(a: &[isize], t: &T) -> Option<isize> {
     match t {
         T::Var(k) => Some(a[*k]),
